@@ -257,6 +257,32 @@ theorem c19_clip_fixes_cube {ρ : Type} (leR : ρ → ρ → Bool) (zero one x :
     (h0 : leR zero x = true) (h1 : leR x one = true) : clip01 leR zero one x = x :=
   clip01_id leR zero one x h0 h1
 
+/-- **Results → trials** (`best_candidates_to_trials`, the form in which the designers consume the
+result): the trials are exactly the candidates of the result rows — each with the reward of ITS row, the
+continuous and the categorical part decoded together — with multiplicity, and they come best first. -/
+theorem c19_to_trials {π ψ α : Type} {le : α → α → Bool} (T : TotalLe le) (decode : ψ → π)
+    (res : List (Entry (List ψ) α)) :
+    (toTrials le decode res).Perm (res.flatMap fun e => e.feat.map fun f => (decode f, e.reward)) ∧
+    (toTrials le decode res).Pairwise (fun a b => le b.2 a.2 = true) := by
+  refine ⟨(perm_sortDesc le res).flatMap_right _, ?_⟩
+  have hs := sorted_sortDesc T res
+  unfold toTrials
+  generalize sortDesc le res = l at hs
+  induction l with
+  | nil => simp
+  | cons e l ih =>
+    have hs' : Sorted le (e :: l) := hs
+    simp only [Sorted, List.pairwise_cons] at hs'
+    rw [List.flatMap_cons, List.pairwise_append]
+    refine ⟨?_, ih hs'.2, ?_⟩
+    · rw [List.pairwise_map]
+      exact List.pairwise_of_forall (fun _ _ => T.refl _)
+    · intro a ha b hb
+      rcases List.mem_map.1 ha with ⟨f, _, rfl⟩
+      rcases List.mem_flatMap.1 hb with ⟨e', he', hb'⟩
+      rcases List.mem_map.1 hb' with ⟨g, _, rfl⟩
+      exact hs'.1 e' he'
+
 /-! ## non-vacuity: the hypotheses are satisfiable and the statements bite -/
 
 /-- a run with ties, a batch larger than `count`, a batch smaller than `count`: rewards
@@ -280,5 +306,9 @@ example : runTopKSeeded (fun a b : Nat => decide (a ≤ b)) 1 (0 : Nat) 0 [⟨7,
 example : rawOk (fun a b : Int => decide (a ≤ b)) 0 10 ⟨2, 3, [3, 2], 3⟩
     (eagleFinish (fun a b : Int => decide (a ≤ b)) 0 10 ⟨2, 3, [3, 2], 3⟩ 3 [-4, 17, 5] [7, 4] [9]) = true := by
   decide
+
+/-- rows out of order, a tie, two parallel candidates in one row -/
+example : toTrials (fun a b : Nat => decide (a ≤ b)) (fun n : Nat => n * 10) [⟨[1], 3⟩, ⟨[2, 3], 7⟩, ⟨[4], 3⟩] =
+    [(20, 7), (30, 7), (10, 3), (40, 3)] := by decide
 
 end VizierModel.C19
